@@ -240,9 +240,100 @@ def swap_comparisons(scratch: str) -> List[str]:
     return _rewrite(scratch, lambda tree, src, full: _CmpSwapper().visit(tree))
 
 
+
+
+# ------------------------------------------------------------------ hoist
+class _Hoister(ast.NodeTransformer):
+    """`x = f(a + b, g(c))` -> `h1_ = a + b; h2_ = g(c); x = f(h1_, h2_)` for assignments and
+    expression statements whose value is a call: positional arguments that are themselves
+    calls / arithmetic are evaluated into fresh temporaries first (same order)."""
+
+    def __init__(self):
+        self.k = 0
+
+    def _hoist(self, st, call):
+        pre = []
+        if not isinstance(call, ast.Call) or any(isinstance(a, ast.Starred) for a in call.args):
+            return [st]
+        # the callee expression must be evaluation-order neutral (a name or attribute chain)
+        f = call.func
+        while isinstance(f, ast.Attribute):
+            f = f.value
+        if not isinstance(f, ast.Name):
+            return [st]
+        new_args = []
+        for a in call.args:
+            if isinstance(a, (ast.BinOp, ast.Call, ast.Subscript)) and not any(
+                    isinstance(y, (ast.Lambda, ast.NamedExpr, ast.Yield, ast.Await,
+                                   ast.GeneratorExp)) for y in ast.walk(a)):
+                self.k += 1
+                name = f"h{self.k}_"
+                pre.append(ast.copy_location(
+                    ast.Assign(targets=[ast.Name(id=name, ctx=ast.Store())], value=a), st))
+                new_args.append(ast.copy_location(ast.Name(id=name, ctx=ast.Load()), a))
+            else:
+                # arguments after an unhoisted one stay in place (keeps the order of evaluation)
+                new_args.append(a)
+                if not isinstance(a, (ast.Name, ast.Constant, ast.Attribute)):
+                    new_args += call.args[len(new_args):]
+                    break
+        call.args = new_args
+        return pre + [st]
+
+    def _block(self, stmts):
+        out = []
+        for st in stmts:
+            st = self.generic_visit(st) if not isinstance(st, (ast.FunctionDef, ast.ClassDef,
+                                                                 ast.AsyncFunctionDef)) \
+                else self.visit(st)
+            if isinstance(st, ast.Assign) and isinstance(st.value, ast.Call) \
+                    and all(isinstance(t, ast.Name) for t in st.targets):
+                out += self._hoist(st, st.value)
+            elif isinstance(st, ast.Expr) and isinstance(st.value, ast.Call):
+                out += self._hoist(st, st.value)
+            else:
+                out.append(st)
+        return out
+
+    def generic_visit(self, node):
+        for field in ("body", "orelse", "finalbody"):
+            v = getattr(node, field, None)
+            if isinstance(v, list) and v and isinstance(v[0], ast.stmt):
+                setattr(node, field, self._block(v))
+        if isinstance(node, ast.Try):
+            for h in node.handlers:
+                h.body = self._block(h.body)
+        return node
+
+    def visit_Module(self, node):
+        # only function bodies: module level statements stay (constants, imports)
+        for st in node.body:
+            if isinstance(st, (ast.FunctionDef, ast.AsyncFunctionDef, ast.ClassDef)):
+                self.visit(st)
+        return node
+
+    def visit_ClassDef(self, node):
+        for st in node.body:
+            if isinstance(st, (ast.FunctionDef, ast.AsyncFunctionDef, ast.ClassDef)):
+                self.visit(st)
+        return node
+
+    def visit_FunctionDef(self, node):
+        self.k = 0
+        node.body = self._block(node.body)
+        return node
+
+    visit_AsyncFunctionDef = visit_FunctionDef
+
+
+def hoist_arguments(scratch: str) -> List[str]:
+    return _rewrite(scratch, lambda tree, src, full: _Hoister().visit(tree))
+
+
 def all_rewrites(scratch: str) -> List[str]:
-    """The four rewrites applied one after the other."""
+    """All rewrites applied one after the other (temporaries first, so that they are renamed
+    like every other local)."""
     out = []
-    for f in (rename_locals, flip_branches, swap_comparisons, reverse_kwargs):
+    for f in (hoist_arguments, rename_locals, flip_branches, swap_comparisons, reverse_kwargs):
         out = f(scratch)
     return out
